@@ -155,6 +155,18 @@ reg(
     "DESIGN.md §3 C05",
 )
 
+reg(
+    "C06",
+    "exploration",
+    "Hypothesis-generated (file, attribute, value) edits drawn from an attribute catalogue of the loaded object; metamorphic oracle (only the edited path changes; saved-and-reloaded state equals edited state)",
+    "For fixtures and generated files, 1-2 edits are drawn from the catalogue of serialized attributes present on the loaded object and applied "
+    "through the public setters. The snapshot may change only at the edited path (plus declared couplings) and must show the new value; "
+    "after save and load the snapshot must equal the edited one, so any replay of original bytes is visible. Every fixture is swept with "
+    "12 (quick) / 60 (thorough) generated edits; Sampler and MetaModule payload edits have dedicated shards.",
+    "Couplings and non-editable attributes are listed in the check's ASSUMPTIONS; true legacy instruments are outside the domain.",
+    "DESIGN.md §3 C06",
+)
+
 NOT_APPLICABLE = {}
 
 ALL = ["C%02d" % i for i in range(1, 21)]
